@@ -403,6 +403,18 @@ class Sizes:
                         return self.lin(b, st).scale(len(a[1]))
             if x[0] == 'call' and x[1] == 'struct.pack' and x[2]:
                 return self.lin(('call', 'struct.calcsize', (x[2][0],), ()), st)
+            if x[0] == 'mcall' and x[2] == 'pack' and x[1][0] == 'name' and len(x[1]) == 2:
+                # PACKER.pack(..) with PACKER = struct.Struct(<constant format>) at module level
+                node = self.facts.assign_nodes.get(x[1][1]) if hasattr(self.facts, 'assign_nodes') else None
+                val = getattr(node, 'value', None)
+                if isinstance(val, ast.Call) and dotted(val.func) in ('struct.Struct', 'Struct') and len(val.args) == 1 and not val.keywords:
+                    try:
+                        fmt = fold(val.args[0], self.facts.consts)
+                    except NotConstant:
+                        fmt = None
+                    n = struct_size(fmt) if isinstance(fmt, str) else None
+                    if n is not None:
+                        return LinS(const=n)
             if x[0] == 'call' and x[1] == 'bytes' and len(x[2]) == 1 and not (is_const(x[2][0]) and isinstance(x[2][0][1], int)):
                 return self.lin(('call', 'len', (x[2][0],), ()), st)
             if x[0] == 'call' and x[1] in ('bytearray', 'bytes', 'list') and not x[2]:
